@@ -10,6 +10,7 @@ CONSTANTS
   Buf = 1
   Fixes = {}
   ColorOnly = FALSE
+  Modes = {}
   ReplayLen = 0
 INVARIANTS RowsOnceInOrder Lag PrefixStable Boundary Replay
 PROPERTY NeverRevised
